@@ -20,6 +20,8 @@ parameters.  The harness evaluates descriptors by an independent single-column c
 -/
 import GlotaranModel.Proto
 import GlotaranModel.C02
+import GlotaranModel.C06Desc
+import GlotaranModel.Generated.C06
 namespace Glotaran.C06
 open Glotaran.LinAlg Glotaran.C02
 
@@ -317,6 +319,159 @@ def sequentialBook (comps : List String) (rates : List Rat) : DecayBook :=
   let j := sequentialJ comps
   ⟨comps, j, j, involved k, k, kfull comps k, kreduced comps k, isSequential comps j k⟩
 
+/-! ### the tables as the *regenerated* descriptors (Generated/C06.lean) define them -/
+
+/-- the part of the complex oscillation a store writes -/
+def partCol (pfid : Bool) (p : Part) (f r : Rat) : Option Col :=
+  match p, pfid with
+  | .real, false => some (.oscCos f r)
+  | .imag, false => some (.oscSin f r)
+  | .real, true => some (.pfidCos f r)
+  | .imag, true => some (.pfidSin f r)
+  | .value, _ => none
+
+/-- the column a store addresses: `idx` the running index, `n` = `rates.size` -/
+def IdxExpr.evalAt (n idx : Nat) : IdxExpr → Option Nat
+  | .idx => some idx
+  | .idxPlus k => some (idx + k)
+  | .idxPlusSize arr => if arr = "rates" then some (idx + n) else none
+  | .const k => some k
+  | .loopVar => none
+
+/-- one pass of the loop body: the stores in source order -/
+def applyStores (stores : List Store) (n idx : Nat) (f r : Rat) (acc : List Col) : Option (List Col) :=
+  stores.foldlM (fun a s =>
+    match s.pos.evalAt n idx, partCol false s.part f r, s.guard with
+    | some j, some c, none => some (a.set j c)
+    | _, _, _ => none) acc
+
+/-- `idx = 0; for frequency, rate in zip(frequencies, rates): <stores>; idx += step` -/
+def fillLoop (stores : List Store) (step n : Nat) : List (Rat × Rat) → Nat → List Col → Option (List Col)
+  | [], _, acc => some acc
+  | (f, r) :: rest, idx, acc =>
+    match applyStores stores n idx f r acc with
+    | some acc' => fillLoop stores step n rest (idx + step) acc'
+    | none => none
+
+/-- column descriptors of an oscillation kernel described by `fd` -/
+def genOscCols (fd : FillDesc) (pfid : Bool) (nLabels : Nat) (freqs rates : List Rat) : Option (List Col) :=
+  match fd with
+  | .zipLoop vars arrays stores step =>
+    if vars = ["frequency", "rate"] ∧ arrays = ["frequencies", "rates"] ∧ pfid = false then
+      fillLoop stores step rates.length (freqs.zip rates) 0 (List.replicate (2 * nLabels) .init)
+    else none
+  | .concat parts =>
+    (parts.mapM (fun p => (freqs.zip rates).mapM (fun q => partCol pfid p q.1 q.2))).map List.flatten
+  | _ => none
+
+def oscEnv (labels : List String) : LEnv := { lists := [("self.labels", labels)] }
+
+def genOscTable (le : LabelExpr) (fd : FillDesc) (pfid : Bool) (labels : List String) (freqs rates : List Rat) :
+    Option Table :=
+  match le.eval (oscEnv labels), genOscCols fd pfid labels.length freqs rates with
+  | some ls, some cs => some ⟨ls, cs⟩
+  | _, _ => none
+
+/-- the regenerated table of the kernel `k` (`noIrfOld` has no source any more) -/
+def genOscTableFor (k : Kernel) (labels : List String) (freqs rates : List Rat) : Option Table :=
+  match k with
+  | .noIrf => genOscTable Generated.dampedOscillationLabels Generated.dampedOscillationNoIrfFill false labels freqs rates
+  | .irf => genOscTable Generated.dampedOscillationLabels Generated.dampedOscillationIrfFill false labels freqs rates
+  | .pfid => genOscTable Generated.pfidLabels Generated.pfidFill true labels freqs rates
+  | .noIrfOld => none
+
+def genSpectralCols (fd : FillDesc) (shape : List (String × String)) : Option (List Col) :=
+  match fd with
+  | .enumerate path ⟨.loopVar, .value, none⟩ => if path = "self.shape" then some (shape.map (fun p => .shape p.2)) else none
+  | _ => none
+
+def genSpectralTable (le : LabelExpr) (fd : FillDesc) (shape : List (String × String)) : Option Table :=
+  match le.eval { lists := [("self.shape", shape.map (·.1))] }, genSpectralCols fd shape with
+  | some ls, some cs => some ⟨ls, cs⟩
+  | _, _ => none
+
+/-- coherent artifact: position `c` holds the (1-based) number of the store that writes column `c`; a store whose
+    guard `order > g` fails is skipped, a store outside the matrix is an IndexError -/
+def genArtifactCols (fd : FillDesc) (order : Nat) : Option (List Col) :=
+  match fd with
+  | .direct stores =>
+    stores.zipIdx.foldlM (fun acc sk =>
+      match sk.1.pos, sk.1.part with
+      | .const c, .value =>
+        let active := match sk.1.guard with
+          | none => some true
+          | some (name, g) => if name = "order" then some (decide (g < order)) else none
+        match active with
+        | some true => if c < acc.length then some (acc.set c (.artifact (sk.2 + 1))) else none
+        | some false => some acc
+        | none => none
+      | _, _ => none) (List.replicate order .init)
+  | _ => none
+
+def genArtifactTable (le : LabelExpr) (fd : FillDesc) (order : Nat) (mcLabel : String) : Option Table :=
+  if 1 ≤ order ∧ order ≤ 3 then
+    match le.eval { scalars := [("self.label", mcLabel)], nats := [("self.order", order)] }, genArtifactCols fd order with
+    | some ls, some cs => some ⟨ls, cs⟩
+    | _, _ => none
+  else none
+
+/-- one-column megacomplexes (`np.ones((n, 1))`): the label list has to have exactly one element -/
+def genOneColumnTable (le : LabelExpr) (env : LEnv) (c : Col) : Option Table :=
+  match le.eval env with
+  | some [l] => some ⟨[l], [c]⟩
+  | _ => none
+
+def genBaselineTable (le : LabelExpr) (datasetLabel : String) : Option Table :=
+  genOneColumnTable le { scalars := [("dataset_model.label", datasetLabel)] } .ones
+
+def genGuideTable (le : LabelExpr) (target : String) : Option Table :=
+  genOneColumnTable le { scalars := [("self.target", target)] } .guide
+
+/-- the compartments a decay megacomplex returns as labels -/
+def genDecayLabels (le : LabelExpr) (ic : IC) (k : KMat) : Option (List String) :=
+  le.eval { lists := [("dataset_model.initial_concentration.compartments", ic.compartments),
+                      ("self.get_k_matrix().involved_compartments()", involved k)] }
+
+def genCompartmentLabels (le : LabelExpr) (comps : List String) : Option (List String) :=
+  le.eval { lists := [("self.compartments", comps)] }
+
+/-! ### full models (global megacomplexes): columns and clps by label pair -/
+
+/-- re-ordering by label for any label type; for `String` labels these are `reorderCols` / `reorderVec` -/
+def reorderColsBy {α} [BEq α] (labels : List α) (m : Mat) (wanted : List α) : Mat :=
+  m.map (fun row => wanted.map (fun l => row.getD (labels.idxOf l) 0))
+
+def reorderVecBy {α} [BEq α] (labels : List α) (c : Vec) (wanted : List α) : Vec :=
+  wanted.map (fun l => c.getD (labels.idxOf l) 0)
+
+/-- `np.kron(global_matrix, matrix)`: column `j * nClp + l` of the full matrix belongs to the pair
+    (global clp label `j`, clp label `l`) -/
+def fullLabels (gl ml : List String) : List (String × String) :=
+  gl.flatMap (fun g => ml.map (fun l => (g, l)))
+
+/-- `clp.sel(global_clp_label=g, clp_label=l)` on `np.array(clps).reshape((len(gl), len(ml)))` with the
+    coordinates `global_clp_label = gl`, `clp_label = ml`; `none` = KeyError -/
+def fullClpAt (gl ml : List String) (c : Vec) (g l : String) : Option Rat :=
+  match gl.idxOf? g, ml.idxOf? l with
+  | some j, some k => some (c.getD (j * ml.length + k) 0)
+  | _, _ => none
+
+/-- everything the full-model path of one dataset produces: global labels / matrix, model labels / matrix,
+    the matrix and data handed to the solver, the solver's clps and residual -/
+structure FullOut where
+  gl : List String
+  g : Body
+  ml : List String
+  m : Body
+  a : Mat
+  y : Vec
+  sol : Option (Vec × Vec)
+
+def fullOut (d : Dataset) : Option FullOut :=
+  match datasetMatrix d.mcs, datasetMatrix d.gmcs, fullModelProblem d with
+  | some lm, some gm, some (a, y) => some ⟨gm.labels, gm.body, lm.labels, lm.body, a, y, solveLS .vp a y⟩
+  | _, _, _ => none
+
 /-! ### driver -/
 open Glotaran.Proto
 
@@ -390,6 +545,28 @@ def tableOfOp (ts : List Tree) : Option Table :=
       some (speciesTable (sequentialBook (← comps.strs?) (← rates.rats?)).comps)
   | _ => none
 
+/-- the same operations answered from the regenerated descriptors; `none` = the descriptors do not evaluate -/
+def genTableOfOp (ts : List Tree) : Option Table :=
+  match ts with
+  | [.atom "osc", k, labels, freqs, rates] => do
+      genOscTableFor (← parseKernel k) (← labels.strs?) (← freqs.rats?) (← rates.rats?)
+  | [.atom "spectral", shape] => do
+      genSpectralTable Generated.spectralLabels Generated.spectralFill (← Tree.listOf? parsePair shape)
+  | [.atom "baseline", ds] => do genBaselineTable Generated.baselineLabels (← ds.str?)
+  | [.atom "artifact", order, label] => do
+      genArtifactTable Generated.coherentArtifactLabels Generated.coherentArtifactFill (← order.nat?) (← label.str?)
+  | [.atom "guide", target] => do genGuideTable Generated.clpGuideLabels (← target.str?)
+  | [.atom "decay", comps, params, excl, ks] => do
+      let k ← Tree.listOf? (Tree.listOf? parseKEntry) ks
+      let ic : IC := ⟨← comps.strs?, ← params.rats?, ← excl.strs?⟩
+      let km ← getKMatrix (k.map dictOf)
+      (genDecayLabels Generated.decayLabels ic km).map speciesTable
+  | [.atom "parallel", comps, _] => do
+      (genCompartmentLabels Generated.decayParallelLabels (← comps.strs?)).map speciesTable
+  | [.atom "sequential", comps, _] => do
+      (genCompartmentLabels Generated.decaySequentialLabels (← comps.strs?)).map speciesTable
+  | _ => none
+
 /-- evaluation of descriptors from an environment keyed by the printed descriptor -/
 def evalCol (env : List (String × List Vec)) (i : Nat) (c : Col) : Vec :=
   match env.lookup (showCol c) with
@@ -412,8 +589,43 @@ def parseMcDecl : Tree → Option McDecl
       some ⟨t, ← dep.bool?, ← Tree.optOf? Tree.rat? scale, evalCol e⟩
   | _ => none
 
+def showFullOut (o : FullOut) : String :=
+  "full " ++ showStrs o.gl ++ " " ++ showBody o.g ++ " " ++ showStrs o.ml ++ " " ++ showBody o.m ++ " " ++
+    showMat o.a ++ " " ++ showRats o.y ++ " " ++
+    (match o.sol with
+     | some (c, r) =>
+       -- the reported `clp` (global_clp_label × clp_label) read with `fullClpAt`, pair by pair
+       showList [showRats c, showRats r, showList (o.gl.map (fun g => showList (o.ml.map (fun l =>
+         match fullClpAt o.gl o.ml c g l with | some x => showRat x | none => "keyerror"))))]
+     | none => "unsolvable")
+
 def driverStep (s : Unit) (ts : List Tree) : Unit × String :=
   match ts with
+  | .atom "gen" :: rest =>
+    match tableOfOp rest, genTableOfOp rest with
+    | _, some t => (s, showTable t)
+    | some _, none => (s, "none")                       -- a valid operation the regenerated descriptors do not answer
+    | none, none => (s, if (rest.head?.bind Tree.raw?) == some "artifact" then "modelerror" else "bad-op")
+  | [.atom "fullmodel", axis, data, weight, mcs, gmcs] =>
+    match axis.rats?, data.ratss?, Tree.optOf? Tree.ratss? weight, Tree.listOf? parseMc mcs, Tree.listOf? parseMc gmcs with
+    | some ax, some dt, some w, some ms, some gs =>
+      match fullOut ⟨"d", ax, dt, w, none, ms, gs⟩ with
+      | some o => (s, showFullOut o)
+      | none => (s, "none")
+    | _, _, _, _, _ => (s, "bad-op")
+  | [.atom "fullclp", gl, ml, c, g, l] =>
+    match gl.strs?, ml.strs?, c.rats?, g.str?, l.str? with
+    | some gl, some ml, some c, some g, some l =>
+      match fullClpAt gl ml c g l with
+      | some x => (s, "rat " ++ showRat x)
+      | none => (s, "keyerror")
+    | _, _, _, _, _ => (s, "bad-op")
+  | [.atom "fullreorder", gl, ml, gl', ml', a, c] =>
+    match gl.strs?, ml.strs?, gl'.strs?, ml'.strs?, a.ratss?, c.rats? with
+    | some gl, some ml, some gl', some ml', some a, some c =>
+      (s, "re " ++ showMat (reorderColsBy (fullLabels gl ml) a (fullLabels gl' ml')) ++ " " ++
+        showRats (reorderVecBy (fullLabels gl ml) c (fullLabels gl' ml')))
+    | _, _, _, _, _, _ => (s, "bad-op")
   | [.atom "tabledataset", n, nIdx, mcs] =>
     match n.nat?, nIdx.nat?, Tree.listOf? parseMcDecl mcs with
     | some n, some k, some ds =>
@@ -492,6 +704,10 @@ def driverStep (s : Unit) (ts : List Tree) : Unit × String :=
       | some r => (s, "vec " ++ showRats r)
       | none => (s, "keyerror")
     | _, _, _ => (s, "bad-op")
+  | [.atom "unionlabels", per] =>
+    match Tree.listOf? Tree.strs? per with
+    | some p => (s, "strs " ++ showStrs (unionLabels p))
+    | none => (s, "bad-op")
   | [.atom "allspecies", per] =>
     match Tree.listOf? Tree.strs? per with
     | some p => (s, "strs " ++ showStrs (allSpecies p))
